@@ -55,7 +55,11 @@ def cases(tier, seed, shard, nshards):
                 if tier == "quick" and n == 3 and (idx // nshards + seed) % 4:
                     continue
                 for mode in (False, True):
-                    yield {"lib": [UNIVERSE[i] for i in sel], "order": ORDERS[oi], "pc": mode}
+                    specs = [UNIVERSE[i] for i in sel]
+                    if (idx // nshards) % 3 == 0:
+                        # start lines that do NOT follow library order (merged files, re-inserted blocks)
+                        specs = [s + [{"line": 100 - 10 * j}] for j, s in enumerate(specs)]
+                    yield {"lib": specs, "order": ORDERS[oi], "pc": mode}
     r = rng_for(seed, shard, "c16")
     for _ in range(tier_pick(tier, 24000, 1200000) // nshards):
         n = r.randint(4, 40)
@@ -68,12 +72,24 @@ def cases(tier, seed, shard, nshards):
                 s = ["string", r.choice(["a", "b", "c", "s%d" % j]), "{%d}" % j]
             elif s[0] in ("icomment", "ecomment"):
                 s = [s[0], "c%d" % j]
+            if r.random() < .5:
+                s = s + [{"line": r.randint(0, 50)}]
             specs.append(s)
         order = r.choice(ORDERS) if r.random() < .8 else None
         yield {"lib": specs, "order": order, "pc": r.random() < .5}
 
 
+_INSTANCES = {}
+
+
 def make_mw(order, pc):
+    key = repr((order, pc))
+    if key not in _INSTANCES:
+        _INSTANCES[key] = _make_mw(order, pc)
+    return _INSTANCES[key]
+
+
+def _make_mw(order, pc):
     from bibtexparser import model as M
     from bibtexparser.middlewares import SortBlocksByTypeAndKeyMiddleware
     if order is None:
